@@ -9,8 +9,9 @@ const IPS: [u16; 22] = [0x0000, 0x0001, 0x00fd, 0x3ffc, 0x3ffd, 0x3ffe, 0x3fff, 
 const SPS: [u16; 16] = [0x0000, 0x0001, 0x0002, 0x8000, 0xc000, 0xc001, 0xd000, 0xdfff, 0xe000, 0xfe00, 0xff10, 0xff80, 0xfffe, 0xffff, 0xff0f, 0xa000];
 
 /// c06.block: whole blocks through `interpreter::run_code_block`: n one-byte, one-cycle, non-terminating instructions and one
-/// terminator (HALT / EI / DI), in ROM bank 0, the switchable bank, work RAM and high RAM.  The block must end at the
-/// terminator and nowhere else, however long it is.
+/// terminator (HALT / EI / DI), in ROM bank 0, the switchable bank, work RAM and high RAM, and starting just below the 4 KiB
+/// lines of work RAM (0xD000, and 0xE000 where the echo begins: code there is written through the cell it mirrors): the block must end at the terminator and nowhere else, however long it is and
+/// whatever address lines it crosses outside ROM.
 /// c06.block at=<addr> code=<hex> | ip= cy= st=
 fn blocks(opts: &Opts, w: &mut dyn Write) {
   let mut rng = Rng::new(opts.seed ^ 0xc06b);
@@ -18,7 +19,7 @@ fn blocks(opts: &Opts, w: &mut dyn Write) {
   let lens: [usize; 16] = [0, 1, 2, 17, 50, 112, 113, 114, 115, 130, 255, 256, 257, 400, 1000, 3000];
   let mut idx = 0usize;
   let reps = if opts.thorough { 12 } else { 2 };
-  for &at in [0x0200u16, 0x4200, 0xc000, 0xd100, 0xff80].iter() { for &n in lens.iter() { for &term in [0x76u8, 0xfb, 0xf3].iter() { for _ in 0..reps {
+  for &at in [0x0200u16, 0x4200, 0xc000, 0xd100, 0xff80, 0xcff0, 0xcfff, 0xdff8].iter() { for &n in lens.iter() { for &term in [0x76u8, 0xfb, 0xf3].iter() { for _ in 0..reps {
     idx += 1;
     let n = if at == 0xff80 { n.min(100) } else { n };
     let mut code: Vec<u8> = (0..n).map(|_| *rng.pick(&[0x00u8, 0x04, 0x0c, 0x14, 0x1c, 0x3c, 0x3d, 0x05, 0x0d, 0x7f, 0x47])).collect();
@@ -28,7 +29,7 @@ fn blocks(opts: &Opts, w: &mut dyn Write) {
     let p = &mut core.memory as *mut crate::mem::MemoryAreas;
     for (k, b) in code.iter().enumerate() {
       let a = at as usize + k;
-      if a < 0x8000 { core.memory.rom[a] = *b; } else { crate::mem::memory_write_byte(p, a as u16, *b); }
+      if a < 0x8000 { core.memory.rom[a] = *b; } else { crate::mem::memory_write_byte(p, (if a >= 0xe000 && a < 0xfe00 { a - 0x2000 } else { a }) as u16, *b); }
     }
     core.registers.af = 0x1200; core.registers.bc = 0x3456; core.registers.de = 0x789a; core.registers.hl = 0xc800; core.registers.sp = 0xdff0;
     core.registers.ip = at as u32; core.registers.cycles = 0;
